@@ -23,10 +23,11 @@ import (
 const prop = "C18"
 
 type procSpec struct {
-	Kind   string `json:"kind"`   // plain | thrower | catcher | waiting
-	Pre    int    `json:"pre"`    // tasks before the throw/catch (or total tasks for plain/waiting)
-	Post   int    `json:"post"`   // tasks after
-	Target int    `json:"target"` // thrower: index of the target process (catcher or waiting), -1 none
+	Kind   string     `json:"kind"`   // plain | thrower | catcher | waiting | prog (a generated C01-style program)
+	Pre    int        `json:"pre"`    // tasks before the throw/catch (or total tasks for plain/waiting)
+	Post   int        `json:"post"`   // tasks after
+	Target int        `json:"target"` // thrower: index of the target process (catcher or waiting), -1 none
+	Prog   *gen.Block `json:"prog,omitempty"`
 }
 
 type action struct {
@@ -35,9 +36,10 @@ type action struct {
 }
 
 type descriptor struct {
-	Procs   []procSpec `json:"procs"`
-	Actions []action   `json:"actions"`
-	Perturb uint64     `json:"perturb"`
+	Procs   []procSpec     `json:"procs"`
+	Vars    map[string]any `json:"vars,omitempty"` // initial variables of every process (conditions of prog processes read them)
+	Actions []action       `json:"actions"`
+	Perturb uint64         `json:"perturb"`
 }
 
 type builtProc struct {
@@ -62,6 +64,11 @@ func build(d descriptor) *built {
 	for i, ps := range d.Procs {
 		b := b0.Sub()
 		bp := &builtProc{spec: ps, g: b.G, id: fmt.Sprintf("Proc_%d", i)}
+		if ps.Kind == "prog" {
+			gen.LowerWith(b, ps.Prog)
+			bt.procs = append(bt.procs, bp)
+			continue
+		}
 		st := b.Add(gen.KStart)
 		bp.start = st.ID
 		cur := st
@@ -181,7 +188,11 @@ func runCase(d descriptor) *result {
 	tr := quiesce.Begin()
 	ctx, cancel := context.WithCancel(context.Background())
 	defer cancel()
-	ps, err := bpmn.NewEngine().NewProcessSet(defs, bpmn.WithContext(ctx))
+	psOpts := []bpmn.Option{bpmn.WithContext(ctx)}
+	if d.Vars != nil {
+		psOpts = append(psOpts, bpmn.WithVariables(d.Vars))
+	}
+	ps, err := bpmn.NewEngine().NewProcessSet(defs, psOpts...)
 	if err != nil {
 		r.Symptom, r.Detail = "construct", err.Error()
 		return r
@@ -262,7 +273,7 @@ func runCase(d descriptor) *result {
 			tp := bt.procs[ti]
 			switch tp.spec.Kind {
 			case "waiting":
-				ni := &inst{m: model.New(tp.g, nil), proc: ti}
+				ni := &inst{m: model.New(tp.g, d.Vars), proc: ti}
 				insts = append(insts, ni)
 				r.Instantiated++
 				apply(ni, ni.m.Start())
@@ -283,7 +294,7 @@ func runCase(d descriptor) *result {
 		if bp.spec.Kind == "waiting" {
 			continue
 		}
-		ni := &inst{m: model.New(bp.g, nil), proc: pi}
+		ni := &inst{m: model.New(bp.g, d.Vars), proc: pi}
 		insts = append(insts, ni)
 	}
 	for _, i := range append([]*inst(nil), insts...) {
@@ -477,8 +488,23 @@ func draw(rt *rapid.T) descriptor {
 	nExec := rapid.IntRange(1, 3).Draw(rt, "exec")
 	nWait := rapid.IntRange(0, 2).Draw(rt, "waiting")
 	for i := 0; i < nExec; i++ {
-		k := rapid.SampledFrom([]string{"plain", "plain", "thrower", "catcher"}).Draw(rt, "kind")
-		d.Procs = append(d.Procs, procSpec{Kind: k, Pre: rapid.IntRange(0, 2).Draw(rt, "pre"), Post: rapid.IntRange(0, 1).Draw(rt, "post"), Target: -1})
+		k := rapid.SampledFrom([]string{"plain", "prog", "thrower", "catcher"}).Draw(rt, "kind")
+		sp := procSpec{Kind: k, Pre: rapid.IntRange(0, 2).Draw(rt, "pre"), Post: rapid.IntRange(0, 1).Draw(rt, "post"), Target: -1}
+		if k == "prog" {
+			// a C01-style program; no loops (answers carry no results), no
+			// inclusive blocks (their join window needs the lock-step driver)
+			sp.Prog = gen.GenProgram(rt, gen.GenOpts{MaxDepth: 2, MaxNodes: 7, NoInc: true, NoLoop: true})
+			if d.Vars == nil {
+				d.Vars = map[string]any{}
+				for _, v := range gen.BoolVars {
+					d.Vars[v] = rapid.Bool().Draw(rt, "bv")
+				}
+				for _, v := range gen.IntVars {
+					d.Vars[v] = int64(rapid.IntRange(0, 3).Draw(rt, "iv"))
+				}
+			}
+		}
+		d.Procs = append(d.Procs, sp)
 	}
 	for i := 0; i < nWait; i++ {
 		d.Procs = append(d.Procs, procSpec{Kind: "waiting", Pre: rapid.IntRange(0, 2).Draw(rt, "pre"), Target: -1})
@@ -549,10 +575,13 @@ func TestC18ProcessSet(t *testing.T) {
 			rt.Fatalf("inconclusive: %s", r.Inconcl)
 		}
 		rec.End(hash, r.Symptom)
-		trivialProc := false
+		trivialProc, progProc := false, false
 		for _, p := range d.Procs {
 			if p.Kind == "plain" && p.Pre == 0 {
 				trivialProc = true
+			}
+			if p.Kind == "prog" {
+				progProc = true
 			}
 		}
 		cls := []string{fmt.Sprintf("procs=%d", len(d.Procs))}
@@ -567,6 +596,9 @@ func TestC18ProcessSet(t *testing.T) {
 		}
 		if trivialProc {
 			cls = append(cls, "processWithoutTask")
+		}
+		if progProc {
+			cls = append(cls, "generatedProgramProcess")
 		}
 		nt := len(d.Procs) >= 2 && (trivialProc || r.MsgFlows > 0 || r.Waits >= 2)
 		rec.Case("TestC18ProcessSet", hash, nt, cls, map[string]any{"case": d, "history": r.History})
